@@ -175,7 +175,7 @@ def oracle(parts, outcome, obs):
 
 
 CLAIM = {
-    "text": "Theorems C08_* (Coq; the guard statements are closed, the NL-table statement rests on the standard real-number axioms): the position fields change only if both CPR slots are non-zero, hold frames of the same kind, were received less than 10 whole seconds apart, the type code is 5-18, the recovered latitudes have equal NL and the result is in range -- a single frame, a stale pair, a mixed surface/airborne pair, a zero field or a zone-straddling pair leave lat/lon/distance/position time exactly as they were (C08_unchanged_without_valid_pair, C08_commit_or_unchanged, C08_time_window, C08_mixed_kinds, C08_zone_straddling, C08_single_frame_*); a committed position is the CPR decode anchored on the frame just received, in range, with the distance tag of the configured observer (C08_committed_position, C08_distance_*); CPR LATITUDE decoding is proved correct in exact arithmetic for every latitude in (-89,89): the recovered latitude is within 6/2^18 degrees of the encoded one (C08_latitude_even/odd_correct, C08_latitude_at_row_level); every boundary of the NL table regenerated from position.rs is the DO-260B transition latitude rounded to 8 decimals (C08_nl_table_is_do260b, Interval). Tied to the code with true positions over every NL zone and both sides of every boundary, equator, antimeridian, both hemispheres, both parities first, delays around 10 s, interleaved frames, +/-U, observers with blanks; the oracle checks that every shown position is within 20 m of the encoded one and the distance column against the great-circle distance.",
-    "note": "Partial in one respect: LONGITUDE decoding accuracy (and hence the full within-20-m statement) is established per generated case by the oracle, not by a Coq theorem; f64 vs exact rationals is a measured tolerance (cases within 1e-3 deg of an NL boundary are not judged); haversine is evaluated in double precision by comparer and oracle.",
+    "text": "Theorems C08_* (Coq; guard and CPR-correctness statements are closed under the global context, the NL-table statement rests on the standard real-number axioms): the position fields change only if both CPR slots are non-zero, hold frames of the same kind, were received less than 10 whole seconds apart, the type code is 5-18, the recovered latitudes have equal NL and the result is in range -- a single frame, a stale pair, a mixed surface/airborne pair, a zero field or a zone-straddling pair leave lat/lon/distance/position time exactly as they were; a committed position is the CPR decode anchored on the frame just received, in range, with the distance tag of the configured observer; CPR DECODING IS PROVED CORRECT in exact arithmetic for latitude and longitude: when the two slots hold the DO-260B encodings of one true position with |lat| < 89 and the pair commits, the position shown is within (360/59)/2^18 degrees of the true latitude and (360/NL)/2^18 degrees of the true longitude modulo 360 (a few metres), for either frame order, with longitude in [-180,180) (C08_latitude_*, C08_longitude_*, C08_decode_correct, C08_position_shown_is_correct; a two-longitude generalisation covers movement between the frames); every boundary of the NL table regenerated from position.rs is the DO-260B transition latitude rounded to 8 decimals (Interval). Tied to the code with true positions over every NL zone and both sides of every boundary, equator, antimeridian, both hemispheres, both parities first, delays around 10 s, interleaved frames, +/-U, observers with blanks; the oracle checks that every shown position is within 20 m of the encoded one and the distance column against the great-circle distance.",
+    "note": "The correctness theorems are in degrees on the exact-rational model; the conversion to metres (within 20 m) and the f64 arithmetic of the implementation are covered by the oracle and the correspondence (tolerance 1e-7 deg; cases within 1e-3 deg of an NL boundary are not judged); haversine is evaluated in double precision by comparer and oracle; surface (TC 5-8) decoding accuracy is not claimed.",
     "technique": "Coq proof of the guard/unchanged/range statements + Interval proof of the NL table on the regenerated data; differential runs with simulated clock and a truth-based oracle",
 }
